@@ -146,6 +146,8 @@ func (v AnnotationLinkValidator) validatePathAnnotations(
 
 	seenRefValues := mapset.NewSet[string]()
 	seenAliases := mapset.NewSet[string]()
+	// URL parameter names already bound by a previous @Path, either through its alias or, lacking one, its value
+	seenBoundUrlParams := mapset.NewSet[string]()
 
 	for _, pathAttr := range v.groupedAttributes.path {
 		// Note that func params are referenced by the Value field, not the alias.
@@ -193,6 +195,23 @@ func (v AnnotationLinkValidator) validatePathAnnotations(
 		if aliasDiag != nil {
 			diags = append(diags, *aliasDiag)
 		} else {
+			// Check if the URL parameter this @Path binds to is already bound by a different @Path
+			// (one through its alias, the other through its name)
+			boundUrlParam := expectedFuncParamName
+			if pAlias != nil && *pAlias != "" {
+				boundUrlParam = *pAlias
+			}
+			if seenBoundUrlParams.Contains(boundUrlParam) {
+				diags = append(diags, diagnostics.NewErrorDiagnostic(
+					v.receiver.Annotations.FileName(),
+					fmt.Sprintf("URL parameter '%s' is bound by multiple @Path attributes", boundUrlParam),
+					diagnostics.DiagLinkerDuplicatePathAliasRef,
+					pathAttr.Comment.Range(),
+				))
+			} else {
+				seenBoundUrlParams.Add(boundUrlParam)
+			}
+
 			// Check if the Path's alias (i.e. 'name' property) appears multiple times
 			if pAlias != nil && *pAlias != "" {
 				alias := *pAlias
